@@ -163,6 +163,13 @@ func (A *audit) minLen(xt *Term, fs factSet) int64 {
 		}
 	}
 	up(fs.lenLowerBound(xt, A.foldInt))
+	for _, pr := range A.P.prefixFacts(fs) {
+		if pr[0].eq(xt) {
+			if bs, ok := A.P.evalBytes(pr[1]); ok {
+				up(int64(len(bs)))
+			}
+		}
+	}
 	for _, f := range fs {
 		p := f.Pred
 		switch {
@@ -189,6 +196,16 @@ func (A *audit) foldInt(t *Term) (int64, bool) { return A.P.foldIntG(t) }
 func (P *Prog) foldIntG(t *Term) (int64, bool) {
 	if n, ok := foldInt(t); ok {
 		return n, true
+	}
+	if t.Op == "binop" && len(t.Args) == 2 && (t.S == "+" || t.S == "-") {
+		if a, ok := P.foldIntG(t.Args[0]); ok {
+			if b, ok := P.foldIntG(t.Args[1]); ok {
+				if t.S == "+" {
+					return a + b, true
+				}
+				return a - b, true
+			}
+		}
 	}
 	if t.Op == "len" && len(t.Args) == 1 && t.Args[0].Op == "load" && t.Args[0].Args[0].Op == "global" {
 		if b, ok := P.globalBytes(t.Args[0].Args[0].S); ok {
@@ -370,6 +387,12 @@ func (A *audit) indexSafe(x, idx ssa.Value, at ssa.Instruction) (bool, string) {
 		}
 		if fs.holdsEq(tLen(ot), tLen(xt)) {
 			return true, fmt.Sprintf("index ranges over %s and len(%s) == len(%s) holds here", ot, ot, xt)
+		}
+		if fs.has(Fact{tLt(tLen(xt), tLen(ot)), false}) || fs.has(Fact{tLe(tLen(ot), tLen(xt)), true}) {
+			return true, fmt.Sprintf("index ranges over %s and len(%s) <= len(%s) holds here", ot, ot, xt)
+		}
+		if n, ok := A.foldInt(tLen(ot)); ok && A.minLenCtx(at.Parent(), xt, fs, n, 0) {
+			return true, fmt.Sprintf("index ranges over %s (%d elements) and len(%s) >= %d", ot, n, xt, n)
 		}
 		for _, lt := range A.lenTerms(xt, fs) {
 			if lt.eq(tLen(ot)) {
